@@ -23,6 +23,10 @@ CHECKS = {
          "Histories of 12-40 top-level evaluations in one runtime through all 15 entry points with 18 fault kinds (errors, every limit, step budget exhausted / context cancelled at an enumerated step index, host panics in five positions, errors in handlers, in-package then failure in a nested load); after every return the stack, pending conditions, evaluator nesting, entry depth, current package and raw evaluation context (hook accessors) are asserted, and a probe program must equal a twin runtime that replays a prefix of the step's effects consistent with the completion probes.",
          "Effects are atomic statements wrapped in a completion probe; the twin is driven fault-free through LoadString; unexported state is read through build-tag accessors in lisp/verif_on.go.",
          "DESIGN.md 4/C05"),
+ "C13": ("exploration", "reference-model runtime monitor: libjson driven through the lisp builtins, judged by an independent byte-level RFC 8259 recognizer/decoder (math/big numbers); Python json as an offline second oracle over the recorded log in the thorough tier",
+         "Generated JSON-representable values are dumped (several forms, permuted insertion order: byte-identical, keys sorted, valid per the independent recognizer, decoded back to the same data, load(dump v) equal? v); generated RFC 8259 texts and ~230 named near-miss mutations are loaded under all four :string-numbers/:exact-integers combinations (keywords and use-* defaults) and must agree with the independent decoder on acceptance, structure, literal text, int/float typing, json:integer-range-error and json:syntax-error.",
+         "Trusts harness/c13x (own recognizer, decoder, UTF-8 validator, big-number classification); interpretations of DESIGN.md 4/C13 and notes/NOTES-C13.md (list==vector, invalid UTF-8, duplicate names, float overflow literals, canonical-float-text 'unsure' band) are not judged.",
+         "DESIGN.md 4/C13"),
 }
 
 ALL = ["C%02d" % i for i in range(1, 21)]
